@@ -66,6 +66,35 @@ def macro_soup(rng):
     return " ".join(out)
 
 
+def ellipsis_soup(rng):
+    """a macro whose pattern has several ellipsis variables (in different sub-lists, nested, in a vector) and whose template
+    puts them under ellipses in every combination - also the ones R7RS calls errors (runs of different lengths under one
+    ellipsis, a variable at the wrong depth, doubled ellipses) - used on forms whose runs have different lengths, one
+    item, or none"""
+    pats = ["(m (a ...) (b ...))", "(m (a b ...) ...)", "(m a ...)", "(m (a ...) b ...)", "(m #(a ...) (b c ...))",
+            "(m (a ...) (b ...) (c ...))", "(m a (b ...) ...)", "(m (a b) ...)"]
+    def tmpl(d):
+        k = rng.random()
+        if d <= 0 or k < 0.35:
+            return rng.choice(["a", "b", "c", "1", "'x", "list", "cons", "+"])
+        items = [tmpl(d - 1) for _ in range(rng.randrange(1, 4))]
+        out = []
+        for it in items:
+            out.append(it)
+            if rng.random() < 0.45:
+                out.append("...")
+                if rng.random() < 0.1:
+                    out.append("...")
+        return ("(" if rng.random() < 0.9 else "#(") + " ".join(out) + ")"
+    fixed = ["(list (cons a b) ...)", "'((a b ...) ...)", "(list a ... b ...)", "(list (list a b c) ...)", "'((a ...) ...)",
+             "(list (+ a b) ... c ...)", "'(a ... ...)", "(quote #(a ... b ...))"]
+    uses = ["(m (1 2 3) (4 5))", "(m (1) ())", "(m () ())", "(m (1 2) 3 4 5)", "(m (1 2 3) (4))", "(m #(1 2) (3 4 5))",
+            "(m (1 2 3) (4 5))", "(m (t1 b1 c1) (t2 b2))", "(m 1 2 3)", "(m (1 2) (3 4) (5))", "(m 1 (2 3) (4))", "(m)", "(m (1 2) (3 4))"]
+    t = rng.choice(fixed) if rng.random() < 0.5 else tmpl(3)
+    text = "(define-syntax m (syntax-rules () (%s %s)))" % (rng.choice(pats), t)
+    return text + " " + " ".join(rng.choice(uses) for _ in range(rng.randrange(1, 4)))
+
+
 def mutate(rng, text):
     toks = text.replace("(", " ( ").replace(")", " ) ").split()
     for _ in range(rng.randrange(1, 4)):
@@ -103,6 +132,8 @@ def run(rep, tier, rng):
     # macro-defining macros and other expansion/definition interplay (a past panic)
     for _ in range(200 if tier == "quick" else 4000):
         texts.append(("macro-soup", macro_soup(rng)))
+    for _ in range(400 if tier == "quick" else 8000):
+        texts.append(("ellipsis-soup", ellipsis_soup(rng)))
     maxlen = 4
     for L in range(1, maxlen + 1):
         for t in itertools.product(ALPHA20, repeat=L):
